@@ -69,7 +69,11 @@ bool index_read(zckCtx *zck, char *data, size_t size, size_t max_length) {
     size_t idx_loc = 0;
     int count = 0;
     while(length < size) {
-        if(length + zck->index.digest_size > max_length) {
+        /* An entry has a second digest if the uncompressed source flag is set */
+        size_t digests_size = zck->index.digest_size;
+        if(zck->has_uncompressed_source)
+            digests_size += zck->index.digest_size;
+        if(length + digests_size > max_length) {
             set_fatal_error(zck, "Read past end of header");
             return false;
         }
